@@ -479,8 +479,26 @@ func (m *Machine) fireNextTimer() bool {
 	if !m.branch(late, "timer-late") {
 		m.now = ch.Deadline
 	}
-	ch.Fired = true
+	m.fireTimer(ch)
 	return true
+}
+
+// fireTimer marks a timer channel as fired and, like a send on it, completes the receive of a goroutine parked on it at
+// that very moment: an event that happens later (a close of another channel of the same select, say) cannot undo it.
+func (m *Machine) fireTimer(ch *ChanObj) {
+	ch.Fired = true
+	ch.recvq = pruneWaiters(ch.recvq)
+	if len(ch.recvq) == 0 {
+		return
+	}
+	w := ch.recvq[0]
+	ch.recvq = ch.recvq[1:]
+	for k, wc := range w.cases {
+		if wc.ch == ch && !wc.send {
+			w.done, w.idx, w.val, w.ok = true, k, &Opaque{Tag: "time.Time"}, true
+			break
+		}
+	}
 }
 
 // timerAwaited reports whether some parked thread is waiting on the timer channel.
@@ -509,7 +527,7 @@ func (m *Machine) checkTimers() {
 		}
 		passed := smt.Sle(ch.Deadline, m.clock())
 		if m.branch(passed, "timer-passed") {
-			ch.Fired = true
+			m.fireTimer(ch)
 		}
 	}
 }
